@@ -274,6 +274,11 @@ class Inc:
             main.append('#ifdef FROM_PRE\nPRE_seen;\n#endif')
         files['main.c'] = '\n'.join(main) + '\n'
         seq = [('-I', x) for x in il] + [('-idirafter', x) for x in al]
+        if seq and ch.int(0, 3) == 0:
+            # a directory named twice (also as ./dir, also once with -I and once with -idirafter) is searched once, at its first place
+            k_, v_ = ch.choice(seq)
+            seq.append((ch.choice(['-I', k_]), ch.choice([v_, './' + v_, v_ + '/'])))
+            self.feat.add('directory-named-twice')
         seq = ch.shuffle(seq)
         args = []
         for k, v in seq:
